@@ -131,6 +131,8 @@ type World struct {
 	orc      *oracle
 
 	failNextMirrorCommit bool
+	shadow     *incarnation // a second live witness process (C14)
+	shadowUsed bool
 	reqOfOp  map[string]*request
 	tickets  []ticketRec
 	cosigned []*cosigned
